@@ -246,10 +246,6 @@ Qed.
 Theorem merge_idempotent d kw m : wf (JDict kw) -> merge d kw = Done m -> merge m kw = Done m.
 Proof. intros W H. exact (merge_idem_v _ W _ _ H). Qed.
 
-(* what an update produced is reproduced by updating the same defaults with it (`load` of a `save`d object) *)
-Lemma merge_absorb_v : forall v, wf v -> forall d m, wf (JDict d) -> mergev v d = Done m -> mergev (JDict m) d = Done m -> True.
-Proof. auto. Qed.
-
 (* ---------------------------------------------------------------------- heap level *)
 Lemma hget_in o k v : hget o k = Some v -> In (k, v) o.
 Proof.
@@ -428,4 +424,93 @@ Theorem second_algorithm_same_view f h s h1 r1 ws t :
   hdeepcopy f (do_hwrites r1 h1 ws) s = Some (halloc t (do_hwrites r1 h1 ws)).
 Proof.
   intros C V T D. unfold hdeepcopy at 1. rewrite (deepcopy_isolates _ _ _ _ _ ws C D f s V), T. reflexivity.
+Qed.
+
+(* ---------------------------------------------------------------------- the heap-level update: it assigns only into the
+   objects it logs (any table).  What is NOT proved in general: that the logged objects are the freshly parsed defaults
+   (it needs: distinct keys, and the default tree not shared) - evaluated on every recorded construction instead. *)
+Section HMergeFrame.
+  Variable act : bool -> bool -> bool -> mact.
+  Definition frame_ok (r : option (heap * list addr)) (h : heap) (log0 : list addr) : Prop :=
+    match r with
+    | Some (h', log) => List.length h' = List.length h /\ incl log0 log /\ forall a, ~ In a log -> nth_error h' a = nth_error h a
+    | None => True
+    end.
+
+  Lemma hmerge_entries_frame rec ra :
+    (forall h rb nb, frame_ok (rec h rb nb) h []) ->
+    forall nd h log0, frame_ok (hmerge_entries act rec ra nd h log0) h log0.
+  Proof.
+    intros R. induction nd as [|[k v] t IH]; simpl; intros h log0.
+    - split; [reflexivity|]. split; [apply incl_refl|]. auto.
+    - destruct (nth_error h ra) as [rd|] eqn:E; simpl; auto.
+      destruct (act _ _ _).
+      + specialize (IH (hupd h ra (hset rd k v)) (ra :: log0)).
+        destruct (hmerge_entries act rec ra t _ _) as [[h' log]|]; simpl in *; auto.
+        destruct IH as (L & I & F). rewrite length_hupd in L. split; auto. split.
+        * intros x Hx. apply I. right; auto.
+        * intros a NA. rewrite (F a NA). apply nth_hupd_ne. intros ->. apply NA, I. left; auto.
+      + destruct (hget rd k) as [[x|rb]|]; simpl; auto. destruct v as [x|nb]; simpl; auto.
+        pose proof (R h rb nb) as Rr. destruct (rec h rb nb) as [[h1 log1]|]; simpl in *; auto.
+        specialize (IH h1 (log1 ++ log0)%list).
+        destruct (hmerge_entries act rec ra t _ _) as [[h' log]|]; simpl in *; auto.
+        destruct Rr as (L1 & _ & F1). destruct IH as (L & I & F). split; [congruence|]. split.
+        * intros x Hx. apply I. apply in_or_app. right; auto.
+        * intros a NA. rewrite (F a NA). apply F1. intros Hx. apply NA, I. apply in_or_app. left; auto.
+      + simpl. auto.
+  Qed.
+
+  Theorem hmerge_frame : forall f h ra na, frame_ok (hmerge_with act f h ra na) h [].
+  Proof.
+    induction f as [|f IH]; simpl; intros h ra na; auto.
+    destruct (nth_error h na) as [nd|]; simpl; auto.
+    apply hmerge_entries_frame. intros h0 rb nb. apply IH.
+  Qed.
+End HMergeFrame.
+
+(* ---------------------------------------------------------------------- corollaries for the iteration counts (C05, C19) *)
+Local Open Scope string_scope.
+(* an explicit `n_burn_in_iter` is what the sampling algorithms keep: the fraction does not overwrite it *)
+Theorem explicit_burn_in_kept d kw p v :
+  NoDup (keys kw) -> merge d kw = Done p -> In ("n_burn_in_iter", v) kw -> v <> JNull -> is_dict v = false ->
+  is_some (dget p "n_burn_in_iter_frac") = true ->
+  burn_in_write p = Done p /\ explicit_count p "n_burn_in_iter" = Some v.
+Proof.
+  intros ND M IN NN V F.
+  assert (G : dget p "n_burn_in_iter" = Some v).
+  { destruct (merge_spec _ _ _ ND M) as (_ & S). specialize (S _ _ IN).
+    destruct (dget d "n_burn_in_iter") as [[]|]; auto.
+    destruct S as (kk & _ & -> & _). discriminate. }
+  unfold burn_in_write, explicit_count. rewrite G.
+  destruct (dget p "n_burn_in_iter_frac"); [|discriminate].
+  destruct v; try congruence; auto.
+Qed.
+
+(* without it (and with the default fraction untouched) the count is int(fraction * n_iter) of the DEFAULT fraction *)
+Theorem default_burn_in_fraction d kw p fr n :
+  NoDup (keys kw) -> merge d kw = Done p ->
+  ~ In "n_burn_in_iter" (keys kw) -> ~ In "n_burn_in_iter_frac" (keys kw) ->
+  dget d "n_burn_in_iter" = Some JNull -> dget d "n_burn_in_iter_frac" = Some fr -> fr <> JNull ->
+  dget p "n_iter" = Some n ->
+  burn_in_write p = obind (int_of_frac fr n) (fun z => Done (dset p "n_burn_in_iter" (JInt z))).
+Proof.
+  intros ND M N1 N2 D1 D2 NN Gn.
+  unfold burn_in_write, explicit_count.
+  rewrite (default_key_kept _ _ _ _ ND M N1), (default_key_kept _ _ _ _ ND M N2), D1, D2, Gn.
+  destruct fr; congruence.
+Qed.
+
+(* `annealing={"n_iter": z, ...}`: the nested count is the explicit one, the annealing keys not given keep their defaults *)
+Theorem explicit_annealing_count d kw p dd kk v :
+  NoDup (keys kw) -> NoDup (keys kk) -> merge d kw = Done p ->
+  In ("annealing", JDict kk) kw -> dget d "annealing" = Some (JDict dd) ->
+  In ("n_iter", v) kk -> v <> JNull -> odict (dget dd "n_iter") = false ->
+  exists mm, dget p "annealing" = Some (JDict mm) /\ explicit_count mm "n_iter" = Some v
+             /\ forall k, ~ In k (keys kk) -> dget mm k = dget dd k.
+Proof.
+  intros ND NDk M IN G INk NN O.
+  destruct (nested_key_updates _ _ _ _ _ _ ND M IN G) as (mm & Mm & Gm).
+  exists mm. split; auto. split.
+  - unfold explicit_count. rewrite (explicit_key_wins _ _ _ _ _ NDk Mm INk O). destruct v; congruence.
+  - intros k NI. apply (default_key_kept _ _ _ _ NDk Mm NI).
 Qed.
